@@ -24,7 +24,7 @@ Rel(sc, al, k) == [scope |-> sc, ds |-> DS, tab |-> Pat(al, TabSize(DS, sc), k)]
 
 SetOf(sc, al, k) == {[op |-> "set", r |-> Rel(sc, al, k), asg |-> a, val |-> v, form |-> f,
                       exp |-> SetValue(Rel(sc, al, k), a, v)] :
-                       a \in AllAsg(DS, sc), v \in {CInt(4), CHalf(3), CBig(2, 1)}, f \in {"dict", "list"}}
+                       a \in AllAsg(DS, sc), v \in {CInt(4), CHalf(3), CBig(2, 1), CBig(1, 4), CInt(0)}, f \in {"dict", "list"}}
 JoinOf(s1, s2, k1, k2) == [op |-> "join", r1 |-> Rel(s1, Alpha, k1), r2 |-> Rel(s2, IntAlpha, k2),
                            exp |-> Join(Rel(s1, Alpha, k1), Rel(s2, IntAlpha, k2))]
 ProjOf(sc, al, k, x, m) == [op |-> "proj", r |-> Rel(sc, al, k), x |-> x, mode |-> m,
